@@ -34,6 +34,8 @@ def env():
     from sqlalchemy import orm
     from sqlalchemy.pool import StaticPool
 
+    from sqlalchemy.orm.collections import attribute_keyed_dict
+
     Base = orm.declarative_base()
 
     class HB(Base):
@@ -49,6 +51,7 @@ def env():
         ref = orm.relationship(HB)
         items = orm.relationship("HC", order_by="HC.id")
         tags = orm.relationship("HT", collection_class=set)
+        dmap = orm.relationship("HD", collection_class=attribute_keyed_dict("id"))
 
     class HC(Base):
         __tablename__ = "c36_c"
@@ -60,9 +63,16 @@ def env():
         id = sa.Column(sa.Integer, primary_key=True)
         a_id = sa.Column(sa.ForeignKey("c36_a.id"))
 
+    class HD(Base):
+        __tablename__ = "c36_d"
+        id = sa.Column(sa.Integer, primary_key=True)
+        a_id = sa.Column(sa.ForeignKey("c36_a.id"))
+
     eng = sa.create_engine("sqlite://", poolclass=StaticPool)
     Base.metadata.create_all(eng)
     _ENV["e"] = (HA, HB, HC, HT, eng)
+    _ENV["HD"] = HD
+    _ENV["Base"] = Base
     return _ENV["e"]
 
 
@@ -90,7 +100,7 @@ class Runner:
         self.kind = case["kind"]
         self.HA, self.HB, self.HC, self.HT, self.eng = env()
         with self.eng.begin() as c:
-            for cls in (self.HC, self.HT, self.HA, self.HB):
+            for cls in (self.HC, self.HT, _ENV["HD"], self.HA, self.HB):
                 c.execute(cls.__table__.delete())
         self.sess = orm.Session(self.eng, autoflush=False)
         self.bs = [self.HB(id=i) for i in range(1, NB + 1)]
@@ -302,6 +312,31 @@ class Runner:
                 self.do_flush()
                 if self.violations:
                     return None
+            elif k == "commit":
+                # flush (recorded as its own step), then commit: every attribute is expired
+                if self.step({"op": "flush"}) is None:
+                    return None
+                self.sess.commit()
+                self.modified = False
+                self.known = True
+                mop = "expall"
+            elif k == "reado":
+                # read ANOTHER column attribute: loads the expired unmodified attributes only; an
+                # attribute set / deleted while expired must keep its pending change
+                from sqlalchemy.orm.base import NO_VALUE
+
+                was_expired = "z" in st.expired_attributes
+                pending = self.key in st.committed_state
+                before = (self.cur(), repr(st.committed_state.get(self.key, "absent")), self.hist())
+                a.z
+                after = (self.cur(), repr(st.committed_state.get(self.key, "absent")), self.hist())
+                if pending and before != after:
+                    self.violations.append(("read-of-other-attribute-changed-pending-change", "reading obj.z changed attribute %s from (value, committed_state, history) %r to %r" % (self.key, before, after)))
+                    return None
+                if not was_expired:
+                    self.check_history("after %s" % json.dumps(op))
+                    return "ok"  # nothing is loaded: not a step of the model
+                mop = "lo"
             elif k == "app":
                 mop = "app:%d" % op["x"]
                 coll = getattr(a, self.key)
@@ -331,6 +366,9 @@ class Runner:
             else:
                 raise ValueError(op)
         except Exception as e:  # noqa: BLE001
+            if k == "load" and isinstance(e, KeyError) and "failed to populate" in str(e) and self.key in st.committed_state and self.key not in st.dict:
+                self.violations.append(("read-after-del-while-expired-keyerror", "attribute deleted (or set and deleted) while the object was expired, then read: _load_expired skips the modified attribute and get() raises %s" % (e,)))
+                return None
             self.violations.append(("op-raised", "%s raised %s: %s" % (json.dumps(op), type(e).__name__, e)))
             return None
         self.model_ops.append(mop)
@@ -411,6 +449,254 @@ class Runner:
         self.sess.close()
 
 
+class CollRunner:
+    """relationship collections (list / set / dict) under every mutator of the collection class,
+    especially as the FIRST mutation after load; oracle only: history == diff(committed members,
+    current members), flush persists exactly the current membership"""
+
+    def __init__(self, case):
+        import sqlalchemy as sa
+        from sqlalchemy import orm
+
+        self.sa = sa
+        self.case = case
+        self.kind = case["ckind"]
+        HA, HB, HC, HT, eng = env()
+        HD = _ENV["HD"]
+        self.cls = {"list": HC, "set": HT, "dict": HD}[self.kind]
+        self.key = {"list": "items", "set": "tags", "dict": "dmap"}[self.kind]
+        with eng.begin() as c:
+            for cl in (HC, HT, HD, HA, HB):
+                c.execute(cl.__table__.delete())
+        self.sess = orm.Session(eng, autoflush=False)
+        self.pool = [self.cls(id=i) for i in range(1, NC + 1)]
+        self.sess.add_all(self.pool)
+        self.a = HA(id=1, z=0)
+        init = case["init"]
+        if init is not None:
+            setattr(self.a, self.key, self.mk([self.pool[i - 1] for i in init]))
+            self.sess.add(self.a)
+            self.sess.commit()
+            getattr(self.a, self.key)
+            self.truth = sorted(init)
+        else:
+            self.sess.commit()
+            self.sess.add(self.a)
+            self.truth = []
+        self.violations = []
+        self.pending_del = False
+
+    def mk(self, objs):
+        if self.kind == "list":
+            return list(objs)
+        if self.kind == "set":
+            return set(objs)
+        return {o.id: o for o in objs}
+
+    def cur(self):
+        d = self.sa.inspect(self.a).dict
+        if self.key not in d:
+            return None
+        c = d[self.key]
+        return sorted(o.id for o in (c.values() if self.kind == "dict" else c))
+
+    def rows(self):
+        t = self.cls.__table__
+        return sorted(r[0] for r in self.sess.connection().execute(self.sa.select(t.c.id).where(t.c.a_id == 1)))
+
+    def check_history(self, where):
+        st = self.sa.inspect(self.a)
+        cur = self.cur()
+        if cur is None:
+            return
+        h = st.attrs[self.key].history
+        got = tuple(sorted(o.id for o in part) for part in (h.added, h.unchanged, h.deleted))
+        if self.key in st.committed_state:
+            want = (sorted(x for x in cur if x not in self.truth), sorted(x for x in cur if x in self.truth), sorted(x for x in self.truth if x not in cur))
+        else:
+            want = ([], cur, [])
+            if cur != self.truth and st.persistent:
+                self.violations.append(("history-ne-diff", "%s: members changed %r -> %r but committed_state has no entry" % (where, self.truth, cur)))
+                return
+        if got != want:
+            self.violations.append(("history-ne-diff", "%s: history %r != diff(committed %r, current %r) = %r" % (where, got, self.truth, cur, want)))
+
+    def do_flush(self, where, commit=False):
+        cur = self.cur()
+        if commit:
+            self.sess.commit()
+        else:
+            self.sess.flush()
+        # `del obj.collection` (no backref) drops the attribute together with its pending changes:
+        # nothing is reported by the history, nothing is persisted
+        want = cur if cur is not None else self.truth
+        rows = self.rows()
+        if rows != want:
+            self.violations.append(("flush-ne-current", "%s: rows %r, members in memory %r (committed before: %r)" % (where, rows, want, self.truth)))
+            return
+        self.truth = want
+        self.pending_del = False
+        st = self.sa.inspect(self.a)
+        if self.key in st.dict:
+            h = st.attrs[self.key].history
+            if h.added or h.deleted:
+                self.violations.append(("history-after-flush", "%s: history still reports added=%r deleted=%r" % (where, [o.id for o in h.added], [o.id for o in h.deleted])))
+
+    def step(self, op):
+        k = op["op"]
+        a = self.a
+        P = self.pool
+        try:
+            if k == "flush":
+                self.do_flush("flush")
+                return
+            if k == "commit":
+                self.do_flush("commit", commit=True)
+                return
+            if k == "exp":
+                if self.sa.inspect(a).persistent:
+                    self.sess.expire(a, [self.key])
+                    self.pending_del = False
+                return
+            if k == "load":
+                getattr(a, self.key)
+                return
+            if k == "delcoll":
+                if self.key in self.sa.inspect(a).dict:
+                    delattr(a, self.key)
+                    self.pending_del = True
+                return
+            coll = getattr(a, self.key)
+            o = P[op["x"] - 1] if "x" in op else None
+            try:
+                if k == "rep":
+                    setattr(a, self.key, self.mk([P[i - 1] for i in op["l"]]))
+                elif self.kind == "list":
+                    if k == "add" and not any(y is o for y in coll):
+                        coll.append(o)
+                    elif k == "remove":
+                        coll.remove(o)
+                    elif k == "pop":
+                        coll.pop(op.get("i", -1))
+                    elif k == "delitem":
+                        del coll[op.get("i", 0)]
+                    elif k == "delslice":
+                        del coll[slice(*op["sl"])]
+                    elif k == "clear":
+                        coll.clear()
+                    elif k == "extend":
+                        coll.extend([P[i - 1] for i in op["l"] if not any(y is P[i - 1] for y in coll)])
+                    elif k == "insert" and not any(y is o for y in coll):
+                        coll.insert(op.get("i", 0), o)
+                elif self.kind == "set":
+                    if k == "add":
+                        coll.add(o)
+                    elif k == "remove":
+                        coll.remove(o)
+                    elif k == "discard":
+                        coll.discard(o)
+                    elif k == "pop":
+                        coll.pop()
+                    elif k == "clear":
+                        coll.clear()
+                    elif k == "update":
+                        coll.update([P[i - 1] for i in op["l"]])
+                    elif k == "diffupd":
+                        coll.difference_update([P[i - 1] for i in op["l"]])
+                    elif k == "intupd":
+                        coll.intersection_update([P[i - 1] for i in op["l"]])
+                    elif k == "symupd":
+                        coll.symmetric_difference_update([P[i - 1] for i in op["l"]])
+                else:
+                    if k == "add":
+                        coll[o.id] = o
+                    elif k == "remove":
+                        del coll[o.id]
+                    elif k == "pop":
+                        coll.pop(o.id)
+                    elif k == "discard":
+                        coll.pop(o.id, None)
+                    elif k == "popitem":
+                        coll.popitem()
+                    elif k == "clear":
+                        coll.clear()
+                    elif k == "setdefault":
+                        coll.setdefault(o.id, o)
+                    elif k == "update":
+                        coll.update({P[i - 1].id: P[i - 1] for i in op["l"]})
+            except (KeyError, ValueError, IndexError):
+                pass
+        except Exception as e:  # noqa: BLE001
+            self.violations.append(("op-raised", "%s raised %s: %s" % (json.dumps(op), type(e).__name__, str(e)[:200])))
+            return
+        self.check_history("after %s" % json.dumps(op))
+
+    def finish(self):
+        if self.violations:
+            return
+        try:
+            self.do_flush("final flush")
+            if self.violations:
+                return
+            self.sess.commit()
+            got = sorted(o.id for o in (getattr(self.a, self.key).values() if self.kind == "dict" else getattr(self.a, self.key)))
+            if got != self.truth:
+                self.violations.append(("reload-ne-flushed", "reloaded %r, flushed %r" % (got, self.truth)))
+        except Exception as e:  # noqa: BLE001
+            self.violations.append(("op-raised", "final flush/commit raised %s: %s" % (type(e).__name__, str(e)[:200])))
+
+    def close(self):
+        self.sess.rollback()
+        self.sess.close()
+
+
+COLL_OPS = {
+    "list": ["add", "remove", "pop", "delitem", "delslice", "clear", "extend", "insert", "rep", "delcoll"],
+    "set": ["add", "remove", "discard", "pop", "clear", "update", "diffupd", "intupd", "symupd", "rep", "delcoll"],
+    "dict": ["add", "remove", "pop", "discard", "popitem", "clear", "setdefault", "update", "rep", "delcoll"],
+}
+
+
+def gen_coll_case(rng, maxops):
+    kind = rng.choice(["list", "set", "dict", "dict"])
+    init = None if rng.random() < 0.2 else sorted(rng.sample(range(1, NC + 1), rng.randint(0, 4)))
+    ops = []
+    members = list(init or [])
+    for _ in range(rng.randint(1, maxops)):
+        c = rng.random()
+        if c < 0.7:
+            k = rng.choice(COLL_OPS[kind])
+            op = {"op": k}
+            if k in ("add", "remove", "discard", "setdefault", "insert") or (k == "pop" and kind == "dict"):
+                op["x"] = rng.choice(members) if members and rng.random() < 0.6 else rng.randint(1, NC)
+            if k in ("pop", "delitem", "insert") and kind == "list":
+                op["i"] = rng.choice([0, -1, 1, 5])
+            if k == "delslice":
+                op["sl"] = [rng.choice([None, 0, 1]), rng.choice([None, 1, 2, -1]), rng.choice([None, 1, 2])]
+            if k in ("extend", "update", "diffupd", "intupd", "symupd", "rep"):
+                op["l"] = sorted(rng.sample(range(1, NC + 1), rng.randint(0, 3)))
+            ops.append(op)
+        elif c < 0.8:
+            ops.append({"op": "flush"})
+        elif c < 0.87:
+            ops.append({"op": "commit"})
+        elif c < 0.93:
+            ops.append({"op": "exp"})
+        else:
+            ops.append({"op": "load"})
+    return {"coll": True, "ckind": kind, "init": init, "ops": ops}
+
+
+def replay_coll_case(case):
+    R = CollRunner(case)
+    for op in case["ops"]:
+        if R.violations:
+            break
+        R.step(op)
+    R.finish()
+    return R
+
+
 def gen_case(rng, maxops):
     kind = rng.choice(["scalar", "scalar", "object", "list", "list", "set"])
     if rng.random() < 0.3:
@@ -431,9 +717,11 @@ def gen_case(rng, maxops):
                 if init is not None and rng.random() < 0.3:
                     v = init["v"]  # set back to the original
                 ops.append({"op": "set", "v": v})
-            elif c < 0.65:
+            elif c < 0.63:
                 ops.append({"op": "del"})
-            elif c < 0.75 and kind == "scalar":
+            elif c < 0.70 and kind == "scalar":
+                ops.append({"op": rng.choice(["commit", "reado", "reado"])})
+            elif c < 0.78 and kind == "scalar":
                 # expiring a relationship attribute goes through the lazy loader / identity map
                 # (outside the model); exercised for scalar columns and collections
                 ops.append({"op": "exp"})
@@ -504,6 +792,37 @@ def run(ctx, deep=False):
                 reqs.append(model_line(case, R))
         finally:
             R.close()
+    # directed: change an attribute while the whole object is expired (after commit), then read
+    # another expired attribute before the flush — the pending change must survive the un-expire
+    directed = []
+    for v in (0, 2, None):
+        for mods in ([{"op": "del"}], [{"op": "set", "v": 1}], [{"op": "set", "v": 1}, {"op": "del"}], [{"op": "set", "v": v}], [{"op": "exp"}, {"op": "del"}]):
+            for tail in ([], [{"op": "flush"}], [{"op": "load"}], [{"op": "reado"}, {"op": "flush"}]):
+                directed.append({"kind": "scalar", "init": {"v": v}, "ops": [{"op": "commit"}] + mods + [{"op": "reado"}] + tail})
+    for case in directed:
+        R = replay_case(case)
+        try:
+            ctx.case(case, nontrivial=True)
+            ctx.count("kind=scalar/directed-expired")
+            if R.violations:
+                ctx.violation("c36:" + R.violations[0][0], case, R.violations[0][1])
+            cases.append(case)
+            impl_out.append("|".join(R.obs) if R.obs else "-")
+            reqs.append(model_line(case, R))
+        finally:
+            R.close()
+    for _ in range(n // 2):
+        case = gen_coll_case(ctx.rng, 8 if thorough else 5)
+        R = replay_coll_case(case)
+        try:
+            ctx.case(case, nontrivial=True)
+            ctx.count("kind=coll-%s/%s" % (case["ckind"], "new" if case["init"] is None else "loaded"))
+            for o in case["ops"]:
+                ctx.count("op=coll-%s:%s" % (case["ckind"], o["op"]))
+            if R.violations:
+                ctx.violation("c36:" + R.violations[0][0], case, R.violations[0][1])
+        finally:
+            R.close()
     if ctx.driver_ok():
         bad = ["history scalar 0 L:5 frob", "history scalar 2 F -", "history coll Q -"]
         ctx.correspond("corr/c36:malformed-rejected", [{"line": l} for l in bad], ["bad-op"] * len(bad), ctx.driver(bad))
@@ -518,6 +837,14 @@ def search(ctx, broken):
 
 def replay(ctx, obj):
     case = obj["case"]
+    if case.get("coll"):
+        R = replay_coll_case(case)
+        try:
+            print("replay C36 %s" % json.dumps(case))
+            print("oracle:", R.violations[:1] or "holds")
+            return bool(R.violations)
+        finally:
+            R.close()
     R = replay_case(case)
     try:
         print("replay C36 %s" % json.dumps(case))
